@@ -797,7 +797,7 @@ func Run(tier string) int {
 	res.Sample(map[string]any{"partA": "staking.undelegate by D named=T grants=T->caller", "partB": []string{"approve(5)", "spend(V1,4,swallow)", "spend(V1,4,bubble)"}})
 	return engine.Finish(res, engine.Meta{
 		Property: Prop, Tier: tier, Level: "model_checking", Start: start,
-		Rule:   "A: full grid {signer directly, contract, nested contract} x 16 state-changing staking/distribution/ICS-20/authorization methods x named account {signer, calling contract, third party, other contract} x grants {none, signer->caller, third->caller, both} (x the third party's withdraw address {own, caller, signer} where it is named), frame rule on a snapshot of funds / stake / unbonding / pending rewards / withdraw address / grants of 5 accounts; B: DFS with digest dedup over all sequences <= depth of {approve, increase, decrease, revoke, native grant with allow-list / other type, spend via contract with failure bubbled or swallowed to V1/V2 for 4 amounts, expiry jump}; C: the same DFS over ICS-20 allowance histories on two channels {approve(A:10 | A:10,B:5), increase / decrease(3|all|100) per channel, revoke, transfer via contract per channel for 3 amounts with failure bubbled or swallowed, expiry jump} with the escrow accounts as spend witness, every step also checked for leaving the other channel's allocation alone; non-trivial = scenario with an effect / successful spend distinct by (grant, amount, mode)",
+		Rule:   "A: full grid {signer directly, contract, nested contract} x 16 state-changing staking/distribution/ICS-20/authorization methods x named account {signer, calling contract, third party, other contract} x grants {none, signer->caller, third->caller, both} (x the third party's withdraw address {own, caller, signer} where it is named), frame rule on a snapshot of funds / stake / unbonding / pending rewards / withdraw address / grants of 5 accounts; B: DFS with digest dedup over all sequences <= depth of {approve, increase, decrease, revoke, native grant with allow-list / other type, spend via contract with failure bubbled or swallowed to V1/V2 for 4 amounts, expiry jump}; C: the same DFS over ICS-20 allowance histories on two channels {approve(A:10 | A:10,B:5), a native x/authz grant without expiration, increase / decrease(3|all|100) per channel, revoke, transfer via contract per channel for 3 amounts with failure bubbled or swallowed, expiry jump} with the escrow accounts as spend witness, every step also checked for leaving the other channel's allocation alone; non-trivial = scenario with an effect / successful spend distinct by (grant, amount, mode)",
 		Bounds: map[string]any{"history_depth": map[string]int{"quick": 3, "thorough": 5}},
 		Assumptions: []string{
 			"gas price 0; contracts never bubble in part A so effects of failed-and-ignored calls count",
@@ -937,6 +937,15 @@ func (e *env) opsC(w *world.World, depth int, path []string) []engine.Op {
 			return "ok"
 		})
 	}
+	// a grant made on the Cosmos side (x/authz MsgGrant) without expiration: the precompile's own
+	// approve always sets one, so this is the only way to get an allocation that never expires
+	add("nativeGrant(ics20,A:10,no-expiry)", func(p []string, res *engine.Result) string {
+		ta := transfertypes.NewTransferAuthorization(transfertypes.Allocation{SourcePort: world.IBCPort, SourceChannel: world.IBCChannelA, SpendLimit: sdk.NewCoins(sdk.NewInt64Coin(world.Denom, 10))})
+		if err := w.App.AuthzKeeper.SaveGrant(w.Ctx(), e.acc("C"), w.Addrs[f.S], ta, nil); err != nil {
+			return engine.ErrClass(err)
+		}
+		return "ok"
+	})
 	for _, ch := range chans {
 		for _, x := range []struct {
 			name, method string
